@@ -1171,6 +1171,30 @@ class Runner:
         if not self.dead:
             self._check_linspace_table("newTable", a, b, n)
 
+    def op_from_values(self, s):
+        """newInterpolationTableFromValues(x, fx) with values the caller computed (this is how FreeEnergy.tracePhase
+        installs its tables), after which the caller re-uses its own buffers.  The function keeps what it was given."""
+        a, b, n = float(s["a"]), float(s["b"]), int(s["n"])
+        x = np.linspace(a, b, n)
+        fx = f_exact(self.init, x)
+        nan = self._grid_has_nan(x)
+        self.lab(f"table-nan-rows:{nan}", f"fromValues:{s['as']}", f"fromValues-scribble:{bool(s['scribble'])}")
+        self._spacing_excused = abs(b - a) / max(1, n - 1) < TOLERANCES["requested_gap_rel"] * (1 + abs(a))
+        xin, fin = (x.copy(), fx.copy()) if s["as"] == "array" else (x.tolist(), fx.tolist())
+        try:
+            self.f.newInterpolationTableFromValues(xin, fin)
+        except Exception as e:  # noqa: BLE001
+            self.fail("table-build-exception", f"op=fromValues R={self.Rc} nan={nan} as={s['as']} exc={type(e).__name__}",
+                      f"newInterpolationTableFromValues(linspace({a!r}, {b!r}, {n}), f(x)) raised {type(e).__name__}: {e}")
+            return
+        if s["scribble"] and s["as"] == "array":
+            xin[:] = 1.0e30          # the caller's buffers are the caller's: re-used for something else
+            fin[...] = -7.0e30
+        self._uncertain()  # whether a new table clears pending evaluations is not documented
+        self._post_step("fromValues")
+        if not self.dead:
+            self._check_linspace_table("fromValues", a, b, n)
+
     def op_extend(self, s):
         new_min, new_max = float(s["newMin"]), float(s["newMax"])
         p_min, p_max = int(s["pMin"]), int(s["pMax"])
@@ -1391,7 +1415,7 @@ class Runner:
 
     # -- dispatch ---------------------------------------------------------------------
     OPS = {
-        "newTable": op_new_table, "extend": op_extend, "setModes": op_set_modes,
+        "newTable": op_new_table, "fromValues": op_from_values, "extend": op_extend, "setModes": op_set_modes,
         "evaluate": op_evaluate, "derivative": op_derivative, "adaptive": op_adaptive,
         "schedule": op_schedule, "roundtrip": op_roundtrip,
     }
@@ -1934,6 +1958,13 @@ def machine(tier, acc):
         @rule(data=st.data())
         def first_table(self, data):
             self._do(draw_new_table, data.draw, self.runner)
+
+        @rule(data=st.data())
+        def from_values(self, data):
+            step = dict(draw_new_table(data.draw, self.runner), op="fromValues")
+            step["as"] = data.draw(st.sampled_from(["array", "array", "list"]), label="as")
+            step["scribble"] = data.draw(st.booleans(), label="scribble")
+            self._do(lambda: step)
 
         @rule(data=st.data())
         def evaluate(self, data):
